@@ -385,6 +385,8 @@ def coq_text(fl):
 def generate(run=None):
     fl = flags()
     text = coq_text(fl)
+    if run is False:
+        return fl                       # development mode: flags only
     if run is not None:
         run.write_generated("Generated/C02Gen.v", text)
     else:
